@@ -53,6 +53,18 @@ impl DbReader {
         DbReader { conn }
     }
 
+    /// Are the tower's tables there yet? (A crash during the very first start can leave an empty file.)
+    pub fn has_schema(&self) -> bool {
+        self.conn
+            .query_row(
+                "SELECT COUNT(*) FROM sqlite_master WHERE type='table' AND name IN ('users','appointments','trackers','last_known_block','keys')",
+                [],
+                |r| r.get::<_, i64>(0),
+            )
+            .map(|n| n == 5)
+            .unwrap_or(false)
+    }
+
     pub fn dump(&self) -> DbDump {
         let c = &self.conn;
         let mut d = DbDump::default();
